@@ -89,6 +89,10 @@ fn c16_msgs(thorough: bool) -> Vec<M> {
         M::GovVote,
         M::Stargate,
         M::Custom,
+        // WasmMsg::Execute whose target is the proxy itself (relayed, not dispatched, here)
+        M::SelfCall(Inner::Freeze),
+        M::SelfCall(Inner::UpdateAdmins(vec![0])),
+        M::SelfCall(Inner::Exec(vec![])),
     ];
     if thorough {
         m.extend([
@@ -127,7 +131,8 @@ fn configs(prop: &str, thorough: bool) -> Vec<(Cfg, Option<usize>)> {
                 c.actors = vec!["A1", "A2", "X", "proxy"];
                 c.init_admins = vec![0, 1];
                 c.admin_callers = vec![0, 1, 2];
-                c.admin_lists = vec![vec![0], vec![0, 1], vec![1], vec![], vec![0, 3]];
+                // incl. lists that repeat an address: as long as / longer than the list they replace
+                c.admin_lists = vec![vec![0], vec![0, 1], vec![1], vec![], vec![0, 3], vec![0, 0], vec![1, 1], vec![0, 0, 1]];
                 c.freeze_callers = vec![0, 2];
                 c.exec_callers = vec![0, 1, 2, 3];
                 c.exec_lists = lists.clone();
